@@ -194,26 +194,26 @@ func (vc *viewChecker) returnsViewOfParam(fn *ssa.Function) int {
 // ---------- potential allocation sites ----------
 
 var nonAllocating = map[string]string{
-	"time.Now":                                   "returns a value",
-	"bytes.Equal":                                "compares",
-	"sync/atomic.StoreUint32":                    "atomic",
-	"sync/atomic.LoadUint32":                     "atomic",
-	"(*sync.RWMutex).RLock":                      "lock",
-	"(*sync.RWMutex).RUnlock":                    "lock",
-	"(*sync.RWMutex).Lock":                       "lock",
-	"(*sync.RWMutex).Unlock":                     "lock",
-	"(*sync.Mutex).Lock":                         "lock",
-	"(*sync.Mutex).Unlock":                       "lock",
-	"net/netip.AddrFrom4":                        "value type",
-	"net/netip.AddrFrom16":                       "value type (unique handle of the zone-less detail is preallocated)",
-	"(net/netip.Prefix).Contains":                "value method",
-	"(net/netip.Addr).IsLinkLocalUnicast":        "value method",
-	"(net/netip.Addr).IsGlobalUnicast":           "value method",
-	"(net/netip.Addr).Is4":                       "value method",
-	"(net/netip.Addr).Is6":                       "value method",
-	"(net/netip.Addr).IsValid":                   "value method",
-	"(encoding/binary.bigEndian).Uint16":         "reads",
-	"(encoding/binary.bigEndian).Uint32":         "reads",
+	"time.Now":                                         "returns a value",
+	"bytes.Equal":                                      "compares",
+	"sync/atomic.StoreUint32":                          "atomic",
+	"sync/atomic.LoadUint32":                           "atomic",
+	"(*sync.RWMutex).RLock":                            "lock",
+	"(*sync.RWMutex).RUnlock":                          "lock",
+	"(*sync.RWMutex).Lock":                             "lock",
+	"(*sync.RWMutex).Unlock":                           "lock",
+	"(*sync.Mutex).Lock":                               "lock",
+	"(*sync.Mutex).Unlock":                             "lock",
+	"net/netip.AddrFrom4":                              "value type",
+	"net/netip.AddrFrom16":                             "value type (unique handle of the zone-less detail is preallocated)",
+	"(net/netip.Prefix).Contains":                      "value method",
+	"(net/netip.Addr).IsLinkLocalUnicast":              "value method",
+	"(net/netip.Addr).IsGlobalUnicast":                 "value method",
+	"(net/netip.Addr).Is4":                             "value method",
+	"(net/netip.Addr).Is6":                             "value method",
+	"(net/netip.Addr).IsValid":                         "value method",
+	"(encoding/binary.bigEndian).Uint16":               "reads",
+	"(encoding/binary.bigEndian).Uint32":               "reads",
 	"(*github.com/irai/packet/fastlog.Logger).IsInfo":  "atomic load",
 	"(*github.com/irai/packet/fastlog.Logger).IsDebug": "atomic load",
 }
